@@ -106,18 +106,22 @@ func gen(r *hv.Rng, i int, tier string) (string, hv.Val) {
 			}
 			es := r.Intn(2)
 			kind := 0
-			if r.Chance(1, 8) {
-				kind = r.Range(1, 2)
+			if r.Chance(1, 4) {
+				kind = r.Range(1, 7)
+			}
+			okKind := kind == 0 || kind == 3 || (kind == 2 && es == 1)
+			if r.Chance(1, 5) {
+				kind += 10 // HEADERS + CONTINUATION
 			}
 			clen := -1
 			if r.Chance(1, 5) {
 				clen = r.Intn(20)
 			}
 			steps = append(steps, step(1, id, es, kind, clen))
-			if id >= next && id%2 == 1 {
+			if id >= next && id%2 == 1 && kind%10 != 7 {
 				next = id + 2
 				ids = append(ids, id)
-				if kind == 0 || (kind == 2 && es == 1) {
+				if okKind {
 					running[id] = true
 					phase[id] = 1 + es
 				} else {
@@ -131,10 +135,11 @@ func gen(r *hv.Rng, i int, tier string) (string, hv.Val) {
 			}
 			kind := 1
 			if r.Chance(1, 3) {
-				kind = 0
+				kind = []int{0, 0, 3, 7, 11, 17}[r.Intn(6)]
 			}
 			es := r.Intn(2)
 			steps = append(steps, step(1, id, es, kind, -1))
+			kind %= 10
 			class = "trailers"
 			switch phase[id] {
 			case 1:
@@ -188,7 +193,20 @@ func gen(r *hv.Rng, i int, tier string) (string, hv.Val) {
 			if !ok {
 				continue
 			}
-			steps = append(steps, step(8, id, 0, 0, 0))
+			if r.Chance(1, 2) {
+				// the return races with a client frame while the final frame is in flight
+				switch r.Intn(4) {
+				case 0, 1:
+					steps = append(steps, step(10, id, 3, r.Intn(9), 0))
+				case 2:
+					steps = append(steps, step(10, id, 4, []int{0, id, next}[r.Intn(3)], r.Range(1, 100)))
+				default:
+					steps = append(steps, step(10, id, 5, r.Range(0, 70000), 0))
+				}
+				class = "race"
+			} else {
+				steps = append(steps, step(8, id, 0, 0, 0))
+			}
 			delete(running, id)
 			phase[id] = 3
 		case k < 92: // handler reads
